@@ -69,6 +69,10 @@ def breakers(text, rng, ast=None):
     j = text.find("CC")
     if j >= 0:
         out.append(("descriptor-between-atoms", text[:j + 1] + "[$]" + text[j + 1:], "parse"))
+    # descriptor between two atoms, directly after a closed branch
+    mb = re.search(r"\)(?=[A-Zc])", text)
+    if mb:
+        out.append(("descriptor-between-atoms[after-branch]", text[:mb.end()] + "[$]" + text[mb.end():], "parse"))
     # unknown descriptor symbol
     k = text.find("[<]")
     if k < 0:
@@ -127,6 +131,14 @@ def generation_misuse(viol, evals):
         cases.append(("prefix-descriptor-differs[id-vs-none]", lambda: st.generate(prefix=MolGen(SmilesToken("C[$1]", 0, 0)), rng=rng())))
         cases.append(("prefix-descriptor-differs[symbol]", lambda: stlt.generate(prefix=MolGen(SmilesToken("C[<]", 0, 0)), rng=rng())))
         cases.append(("prefix-descriptor-differs[symbol-and-id]", lambda: st1.generate(prefix=MolGen(SmilesToken("C[<]", 0, 0)), rng=rng())))
+        # the prefix's descriptor would find a partner among the repeat units, but it is not the one the left terminal names
+        st_id = Stochastic("{[$2][$1]CC[$1][$1]}|uniform(20, 60)|", 0)
+        st_sym = Stochastic("{[>][>]CC[<][<]}|uniform(20, 60)|", 0)
+        st_idn = Stochastic("{[$][$1]CC[$1][$1]}|uniform(20, 60)|", 0)
+        cases.append(("prefix-descriptor-differs[id-partner-exists]", lambda: st_id.generate(prefix=MolGen(SmilesToken("C[$1]", 0, 0)), rng=rng())))
+        cases.append(("prefix-descriptor-differs[symbol-partner-exists]", lambda: st_sym.generate(prefix=MolGen(SmilesToken("C[<]", 0, 0)), rng=rng())))
+        cases.append(("prefix-descriptor-differs[id-vs-none-partner-exists]", lambda: st_idn.generate(prefix=MolGen(SmilesToken("C[$1]", 0, 0)), rng=rng())))
+        cases.append(("prefix-descriptor-differs[in-molecule]", lambda: Molecule("CC[$1]{[$2][$1]CC[$1][$1]}|uniform(20, 60)|F").generate(rng=rng())))
         cases.append(("prefix-two-open", lambda: st.generate(prefix=MolGen(SmilesToken("[$]C[$]", 0, 0)), rng=rng())))
         cases.append(("not-generable[no-distribution]", lambda: nodist.generate(prefix=MolGen(SmilesToken("C[$]", 0, 0)), rng=rng())))
         cases.append(("not-generable[molecule]", lambda: Molecule("C{[$][$]CC[$][$]}F").generate(rng=rng())))
@@ -149,6 +161,14 @@ def work(task):
     if task["kind"] == "misuse":
         generation_misuse(viol, evals)
         distinct.add("misuse")
+        from gbigsmiles.token import SmilesToken
+        for bad in ("CC[$]C", "C[$]C", "C(C)[$]C", "[$]CC(C)[$]C", "[<]CC(c1ccccc1)[>]CC", "C(C)(C)[<]C", "CC(=O)[>]N", "C.[$]C", "C[$", "C((C)", "C)C(", "[$][$]", "C[Q]"):
+            st_, val = guarded(lambda: SmilesToken(bad, 0, 0), 10)
+            evals[0] += 1
+            distinct.add(bad)
+            if st_ == "ok" and bad not in ("[$][$]",):
+                viol.append({"key": "C15/SmilesToken.__init__/must-raise[ill-formed-token]", "clause": "an ill-formed token is answered with an error",
+                             "detail": {"accepted_as": str(val), "fragment": val.generate_smiles_fragment()}, "input": {"token": bad}})
     elif task["kind"] == "break":
         for text in task["texts"]:
             for rule, broken, stage in breakers(text, rng, task.get("asts", {}).get(text)):
